@@ -32,9 +32,11 @@ Tie    : both Coq models (binary64 instance) are run on the same inputs and ever
          points; the models flag near ties of those (codes 70/71/170).  Without such a flag the
          discrete outputs (and for Jolt the point, for the original solver the weights) must be
          bit-identical; BLAS-computed quantities (np.dot(v, v); bary.dot(points)) within a few ulp.
-         Other streams: the discrete outputs are compared only where the model's own answer is
-         unchanged under 8 random relative 2^-50 perturbations of the input (decision margins
-         clear), the continuous ones must lie within 4x the spread over those perturbations
+         Other streams: the discrete outputs are compared only where no such near tie is flagged
+         (input perturbations move both sides of such a comparison together, so they cannot
+         reveal it) and the model's own answer is unchanged under 8 random relative 2^-50
+         perturbations of the input (margins of the sign decisions on differences of dot
+         products clear), the continuous ones must lie within 4x the spread over those perturbations
          + 16 ulp of the scale.  A mismatch on a stable case is re-examined with 40 more
          perturbations before it counts.
 """
@@ -709,6 +711,8 @@ def compare_jolt(case, r, e, extra=None):
             return "mismatch", f"v_len_sq: impl {vl!r} model {m['len']!r}"
         return "ok-exact", ""
     perts = ms[1:]
+    if any(70 in x["trace"] or 71 in x["trace"] for x in ms):
+        return "skipped-tie", ""       # a comparison of two nearly equal squared distances decides
     stable = all(pm["st"] == 1 and pm["bits"] == m["bits"] for pm in perts)
     if not stable:
         return "skipped-unstable", ""
@@ -751,6 +755,8 @@ def compare_orig(case, r, e, extra=None):
             return "mismatch", f"distance_squared: impl {d2!r} model {m['d2']!r}"
         return "ok-exact", ""
     perts = ms[1:]
+    if any(170 in x["trace"] for x in ms):
+        return "skipped-tie", ""       # a comparison of two nearly equal squared distances decides
     stable = all(pm["st"] == 1 and pm["ord"] == m["ord"] for pm in perts)
     if not stable:
         return "skipped-unstable", ""
@@ -975,8 +981,8 @@ def run(tier, seed, replay=None):
                       orig=dict(v=unhex(r["orig"]["v"]), idx=r["orig"]["idx"], bary=unhex(r["orig"]["bary"])) if "exc" not in r["orig"] else r["orig"]))
     # proof or tie broke, no failing input yet: targeted search = more of every stream, certificate-judged
     if (R.proof_broken or R.corr_broken) and not R.violations and not replay:
-        extra = [gen_real(R.rng) for _ in range(4000)] + [gen_grid(R.rng) for _ in range(4000)] + \
-                [dict(pts=lattice_sample(R.rng, k, (-2, -1, 0, 1, 2)), gen=f"lattice5:k{k}") for k in (3, 4) for _ in range(3000)]
+        extra = [gen_real(R.rng) for _ in range(2000)] + [gen_grid(R.rng) for _ in range(2000)] + \
+                [dict(pts=lattice_sample(R.rng, k, (-2, -1, 0, 1, 2)), gen=f"lattice5:k{k}") for k in (3, 4) for _ in range(1000)]
         res2 = run_impl_cases(extra, "search")
         try:
             ev2 = evaluate(R, extra, res2, "search", per_file=400)
